@@ -356,17 +356,19 @@ WR_TB = ["std::io::BufWriter is modelled from its documented / observed rule (fl
 PROPS["C09"] = dict(
     title="persist(SyncData|SyncAll) makes all earlier writes power-loss durable",
     modules=["FjallModel.Props.C09"],
-    theorems=["Fjall.Journal.c09_sync_durable", "Fjall.Journal.c09_manual_buffer", "Fjall.Journal.c09_inv_after_write", "Fjall.Journal.c09_inv_after_persist"],
+    theorems=["Fjall.Journal.c09_sync_durable", "Fjall.Journal.c09_manual_buffer", "Fjall.Journal.c09_inv_after_write", "Fjall.Journal.c09_inv_after_persist",
+              "Fjall.Journal.c09_rotate_seals_durably"],
     statements={
         "c09_sync_durable": "under every fault plan: persist(SyncData|SyncAll) = Ok implies the user-space buffer is empty and synced = file length",
+        "c09_rotate_seals_durably": "a successful journal rotation leaves the sealed file holding every byte handed to the writer before it, all covered by the fsync; the new file starts empty",
         "c09_manual_buffer": "persist(Buffer) = Ok implies the user-space buffer is empty (manual journal persist)",
         "c09_inv_*": "the writer never holds buffered bytes while is_buffer_dirty is false, after every append and persist",
     },
     engines=[dict(bin="fault", args=["--mode", "c09"], cases_quick=64, cases_thorough=2000, profiles=["release"], shards=8, timeout_quick=900)],
     rule="case = journal workload (insert, remove, clear, batches with every durability incl. none, persist with every mode; values 0 B .. 9000 B so that the 8 KiB "
-         "BufWriter overflows and is bypassed; manual persist on/off; lz4/none) run in a child process under the shim: (1) the syscall trace (write sizes, fsync / "
+         "BufWriter overflows and is bypassed; journal rotations; manual persist on/off; lz4/none) run in a child process under the shim: (1) the syscall trace (write sizes, fsync / "
          "fdatasync) must equal the Lean writer model's trace and the file bytes the model's bytes; (2) power-loss images: the child is killed before syscall n "
-         "(sampled; all n in thorough), the journal is cut to the length covered by the last successful sync (from the shim log) and zero-padded, reopened: the "
+         "(sampled; all n in thorough), every journal file is cut to the length covered by its own last successful sync (from the shim log, per file descriptor), the active one zero-padded, reopened: the "
          "content must be the state of a prefix of the operations containing everything acknowledged before the last acknowledged sync. non-trivial = a sync "
          "persist occurs strictly inside the workload",
     trusted_base=WR_TB + JOURNAL_TB,
